@@ -187,6 +187,9 @@ def _apply_unit(repo: str, header: str, body_lines: List[str], tpl_name: str) ->
                 rule = d.split(":", 1)[1]
                 p, r = rule.split("==>", 1)
                 sections.append(("sigrw", p.strip(), [r.strip()]))
+            elif d.startswith("attr:"):
+                # attribute(s) put in front of the unit's signature (e.g. #[verifier::loop_isolation(false)])
+                sections.append(("attr", d[5:].strip(), []))
             elif d.startswith("guard:"):
                 # `guard: self.F.write() as LK w` / `... .read() as LK r`: lock guards keep their scope.  The `let X = <expr>;`
                 # becomes `self.LK.acquire_w(); let X = &mut self.F;` and `self.LK.release_w();` is inserted where the guard
@@ -480,6 +483,9 @@ def _apply_unit(repo: str, header: str, body_lines: List[str], tpl_name: str) ->
     for off, txt in sorted(inserts, key=lambda x: -x[0]):
         body = body[:off] + txt + body[off:]
     spec = "\n".join("\n".join(l) for k, a, l in sections if k == "spec")
+    attrs = " ".join(a for k, a, l in sections if k == "attr")
+    if attrs:
+        sig = attrs + " " + sig
     out = sig + "\n" + spec + ("\n" if spec else "") + body + "\n"
     if lifted:
         out += "\n" + "\n".join(lifted) + "\n"
